@@ -34,6 +34,7 @@ Theorem C14_history_independent : forall b0 hdr body rest rest' s s',
   exists r r', read_packet s = RP r /\ read_packet s' = RP r' /\
                r_pkt r = r_pkt r' /\ r_err r = r_err r' /\ r_got r = r_got r'.
 Proof. exact frame_fragmentation. Qed.
+Print Assumptions C14_history_independent.
 
 (* In the model packets are values: operations on one packet cannot change
    another. That the Go packets share no mutable memory (decoded slices,
